@@ -156,7 +156,11 @@ def gen_rs(r, seed):
 def gen_extract(r, prop, client, risky_rate=0.04, force_small=False,
                 max_n=40):
     examples, info = gs.corpus(r, max_n=max_n, risky_rate=risky_rate)
-    form = r.weighted([(6, 'list'), (3, 'dict'), (1, 'series')])
+    if r.chance(0.04):
+        # nothing to learn from: no examples, or nulls only
+        examples = r.pick([[], [None], [None, None]])
+    form = r.weighted([(6, 'list'), (3, 'dict'), (1, 'series'),
+                       (1.2, 'streams')])
     opts = gen_opts(r, prop)
     size = gen_size(r, force_small)
     seed = r.weighted([(6, r.randint(2, 2 ** 31)), (1, 0), (1, 1),
@@ -177,6 +181,15 @@ def gen_extract(r, prop, client, risky_rate=0.04, force_small=False,
             op['form'] = 'list'
             op['examples'] = examples
             del op['freqs']
+    if op['form'] == 'streams':
+        # rexpy_streams(list, False, ...): the list-of-lines entry point,
+        # optionally with a header line to skip; nulls are not lines
+        op['examples'] = [s for s in examples if s is not None]
+        op['skip_header'] = r.chance(0.6)
+        op['header'] = r.pick(['code', 'value', 'Name', 'id'])
+        if not op['examples']:
+            op['form'] = 'list'
+            op['examples'] = examples
     if op['form'] == 'series':
         # pdextract takes no options apart from the seed
         op['opts'] = {}
@@ -199,7 +212,8 @@ def gen_extract(r, prop, client, risky_rate=0.04, force_small=False,
 
 
 def gen_plan(prop, r, tier, run):
-    config = {'random0': r.getrandbits(32)}
+    config = {'random0': r.getrandbits(32),
+              'caller_edits_results': r.chance(0.4)}
     ops = []
     clients = ['A', 'B', 'C'][:r.weighted([(5, 1), (3, 2), (2, 3)])]
     if prop == 'C14':
@@ -252,6 +266,8 @@ def gen_plan(prop, r, tier, run):
                 if op['form'] == 'dict':
                     op['form'] = 'list'
                     op.pop('freqs', None)
+                if op['form'] == 'streams':
+                    op['examples'] = [s for s in ex if s is not None] or ['x']
                 if op['form'] == 'series':
                     op['examples'] = [s.replace('\x00', '\x01')
                                       if s is not None else s for s in ex]
@@ -261,6 +277,13 @@ def gen_plan(prop, r, tier, run):
                     op['opts']['dialect'] = r.pick(
                         [d for d in ('perl', 'portable', 'grep')
                          if d != src['opts'].get('dialect')])
+            if prev and op.get('size') and r.chance(0.35):
+                # the caller keeps one Size object and hands it to every call
+                src = r.pick(prev)
+                if src.get('size'):
+                    src.setdefault('size_shared', 'S%d' % len(prev))
+                    op['size'] = dict(src['size'])
+                    op['size_shared'] = src['size_shared']
             if prop == 'C13':
                 op['tagpair'] = True
                 op['opts'].pop('tag', None)
@@ -269,6 +292,8 @@ def gen_plan(prop, r, tier, run):
                 if op['form'] == 'series':
                     op['form'] = 'list'
                     op.pop('split', None)
+                if op['form'] == 'streams':
+                    op['form'] = 'list'
             ops.append(op)
     for i, op in enumerate(ops):
         op['i'] = i
@@ -281,6 +306,10 @@ def gen_c14(r, clients):
     if tgt['form'] == 'series':
         tgt['form'] = 'list'
         tgt.pop('split', None)
+    if tgt['form'] == 'streams':
+        tgt['form'] = 'list'
+        for k in ('skip_header', 'header'):
+            tgt.pop(k, None)
     if tgt['form'] == 'dict':
         # canonical target is a list; dict is one of the variants
         ex = []
@@ -331,10 +360,17 @@ def gen_c14(r, clients):
                 if po['form'] == 'series':
                     po['examples'] = [s.replace('\x00', '\x01')
                                       if s is not None else s for s in ex]
+                if po['form'] == 'streams':
+                    po['examples'] = [s for s in ex if s is not None] or ['x']
                 if po['opts'].get('dialect', 'd') == tgt['opts'].get(
                         'dialect', 'd'):
                     po['opts']['dialect'] = r.pick(['perl', 'portable',
                                                     'grep'])
+            if tgt.get('size') and po.get('size') and r.chance(0.4):
+                # the prefix caller uses the very Size object of the target
+                tgt['size_shared'] = 'S0'
+                po['size'] = dict(tgt['size'])
+                po['size_shared'] = 'S0'
             ops.append(po)
     ops.append(variant('after_prefix'))
     if r.chance(0.7):
@@ -361,6 +397,15 @@ def gen_c14(r, clients):
             s = r.pick(ex)
             rep.insert(r.randrange(len(rep) + 1), s)
         ops.append(variant('repeated', examples=rep))
+    if r.chance(0.3) and any(s is not None for s in ex):
+        # the same strings through the list-of-lines entry point, the
+        # caller passing one list object twice
+        lines = [s for s in ex if s is not None]
+        sh = r.chance(0.7)
+        for nm in ('streams', 'streams-again'):
+            ops.append(variant(nm, form='streams', examples=lines,
+                               skip_header=sh, header='code',
+                               stream_key='K0'))
     if r.chance(0.35):
         # the same strings as Pandas columns (pdextract takes no options, so
         # its list-form peer is a call with default options and sizes)
@@ -522,6 +567,7 @@ def execute(plan):
     ctx.shape = []
     ctx.nontrivial = False
     ctx.groups = {}
+    ctx.plan_config = plan.get('config') or {}
 
     simr = SimRandom()
     saved_random = rexpy.random
@@ -556,6 +602,8 @@ def execute(plan):
                 from sim import stateguard
                 stateguard.restore()
                 rexpy.memo.clear()
+                ctx.__dict__.pop('sizes', None)
+                ctx.__dict__.pop('stream_lists', None)
                 random.seed(plan['config']['random0'])
                 ctx.events.append({'i': op['i'], 'op': 'fresh_process'})
                 ctx.shape.append('F')
@@ -621,13 +669,37 @@ def call_extract(ctx, op, tag=None, as_object=False):
     if tag is not None:
         opts['tag'] = tag
     size = rexpy.Size(**op['size']) if op.get('size') else None
+    if size is not None and op.get('size_shared'):
+        sizes = ctx.__dict__.setdefault('sizes', {})
+        if op['size_shared'] in sizes:
+            size = sizes[op['size_shared']]
+            ctx.stats['probes']['same_size_object_passed_again'] += 1
+        else:
+            sizes[op['size_shared']] = size
     ctx.simr.begin(op.get('rs'))
     ctx.attempts[0] = 0
     before = random.getstate()
-    ex = build_examples(op)
+    if op['form'] == 'streams':
+        # one list object per op (or per stream_key): a caller that reads
+        # its lines once and analyses them more than once
+        held = ctx.__dict__.setdefault('stream_lists', {})
+        key = op.get('stream_key', op['i'])
+        if key not in held:
+            held[key] = ([op['header']] if op.get('skip_header') else []) \
+                + list(op['examples'])
+        else:
+            ctx.stats['probes']['same_line_list_passed_again'] += 1
+        ex = held[key]
+    else:
+        ex = build_examples(op)
+    ctx.last_input = ex
     try:
         if op['form'] == 'series':
             val = rexpy.pdextract(ex, seed=op.get('seed'))
+        elif op['form'] == 'streams':
+            val = rexpy.rexpy_streams(ex, False,
+                                      skip_header=bool(op.get('skip_header')),
+                                      size=size, seed=op.get('seed'), **opts)
         else:
             val = rexpy.extract(ex, size=size, seed=op.get('seed'),
                                 as_object=as_object, **opts)
@@ -642,6 +714,15 @@ def call_extract(ctx, op, tag=None, as_object=False):
     after = random.getstate()
     obs = {'samples': list(ctx.simr.calls), 'attempts': ctx.attempts[0],
            'state_same': before == after}
+    if outcome == 'ok' and isinstance(val, list) and \
+            ctx.plan_config.get('caller_edits_results'):
+        # the caller goes on to use the list it was given as its own
+        # (found = extract(a); found += extract(b)): what it does to it
+        # afterwards is no business of later calls
+        got = list(val)
+        val.append('<appended by the caller>')
+        ctx.stats['probes']['returned_list_edited_by_caller'] += 1
+        val = got
     return outcome, val, obs
 
 
@@ -948,6 +1029,20 @@ def run_cov(ctx, op, kept):
         return
     rex = list(x.results.rex)
     ev['rex'] = rex
+    if ctx.plan_config.get('caller_edits_results') and \
+            isinstance(ctx.last_input, (list, dict)):
+        # the caller goes on using its own container (a buffer that keeps
+        # growing, or is recycled for the next batch) before it asks the
+        # extractor for its figures
+        inp = ctx.last_input
+        if isinstance(inp, list):
+            if op['i'] % 2:
+                inp.extend(['added later', '12345', 'Zz-9'])
+            else:
+                inp[:] = ['recycled']
+        else:
+            inp['added later'] = 3
+        ctx.stats['probes']['input_container_edited_after_extraction'] += 1
     crs = compile_all(rex)
     if any(isinstance(c, Exception) for c in crs):
         ctx.events.append(ev)
